@@ -48,6 +48,27 @@ theorem C23_rc4_prga_append (st : Rc4State) (a b : Bytes) :
   | nil => rfl
   | cons x xs ih => simp [prga, ih]
 
+/-- After the key schedule and any amount of processed data the state array is still a
+permutation of 0…255 — for every key and every input length. -/
+theorem C23_rc4_state_permutation (key data : Bytes) :
+    (data.foldl (fun s _ => (prgaStep s).1) (rc4Init key)).s.Perm rc4Identity := by
+  have h : ∀ (d : Bytes) (st : Rc4State), (d.foldl (fun s _ => (prgaStep s).1) st).s.Perm st.s := by
+    intro d
+    induction d with
+    | nil => intro st; exact Array.Perm.refl _
+    | cons b rest ih =>
+      intro st
+      simp only [List.foldl_cons]
+      exact (ih _).trans (C23_rc4_prga_permutation st)
+  have h1 := h data (rc4Init key)
+  have e : (rc4Init key).s = ksa key := by simp only [rc4Init]
+  rw [e] at h1
+  exact h1.trans (C23_rc4_ksa_permutation key)
+
+example (key data : Bytes) :
+    (data.foldl (fun s _ => (prgaStep s).1) (rc4Init key)).s.size = rc4Identity.size :=
+  (C23_rc4_state_permutation key data).size_eq
+
 /-! ## PKCS#7 and CBC -/
 
 /-- Padding adds 1…16 bytes and makes the length a multiple of 16. -/
@@ -150,6 +171,17 @@ theorem C23_keySched_isSome (key : Bytes) : (keySched key).isSome ↔ (key.lengt
   unfold keySched
   by_cases h : key.length = 16 ∨ key.length = 32 <;> simp [h]
 
+/-- the key schedule has Nr + 1 round keys: 11 for a 16-byte key, 15 for a 32-byte key -/
+theorem C23_keySched_rounds (key : Bytes) (ks : KeySched) (h : keySched key = some ks) :
+    ks.mids.length + 2 = key.length / 4 + 7 := by
+  unfold keySched at h
+  split at h
+  · simp only [Option.some.injEq] at h
+    subst h
+    simp only [List.length_map, List.length_range]
+    omega
+  · cases h
+
 /-- AES-CBC with PKCS#7 (reference): decryption returns the plaintext, for every 16- or 32-byte
 key, 16-byte IV and byte string — no hypothesis about the cipher. -/
 theorem C23_aes_cbc_pkcs7_roundtrip (key iv data : Bytes) (hk : key.length = 16 ∨ key.length = 32)
@@ -186,6 +218,34 @@ theorem C23_model_aes_cbc_roundtrip (key iv data : Bytes) (hk : key.length = 16 
 example : ∃ c, aesEncryptCbc (List.replicate 32 7) (List.replicate 16 0) [] = .ok c ∧
     aesDecryptCbc (List.replicate 32 7) (List.replicate 16 0) c = .ok [] :=
   C23_model_aes_cbc_roundtrip _ _ _ (by simp) (by simp)
+
+/-- `decrypt_aes` inverts `encrypt_aes` whatever IV the latter drew: for R4 (AESV2, per-object
+key with the `sAlT` suffix) and R5/R6 (AESV3, the 32-byte file key), every object number,
+generation and byte string. `c` is what `encrypt_aes` appends after the IV. -/
+theorem C23_model_decrypt_aes_inverts (rev : Nat) (key : Bytes) (num gen : Nat) (iv data k : Bytes)
+    (hk : aesObjKey rev key num gen = some k) (hiv : iv.length = 16) :
+    ∃ c, aesEncryptCbc k iv data = .ok c ∧ decryptAes rev key num gen (iv ++ c) = some data := by
+  have hkl : k.length = 16 ∨ k.length = 32 := by
+    unfold aesObjKey at hk
+    split at hk
+    · simp only at hk
+      split at hk
+      · rename_i h16; simp only [Option.some.injEq] at hk; subst hk; exact Or.inl h16
+      · cases hk
+    · split at hk
+      · split at hk
+        · rename_i h32; simp only [Option.some.injEq] at hk; subst hk; exact Or.inr h32
+        · cases hk
+      · cases hk
+  obtain ⟨c, hc, hd⟩ := C23_model_aes_cbc_roundtrip k iv data hkl hiv
+  refine ⟨c, hc, ?_⟩
+  unfold decryptAes
+  rw [if_neg (by simp only [List.length_append, hiv]; omega)]
+  simp only [hk, List.take_left' hiv, List.drop_left' hiv, hd, bind, Option.bind]
+
+example : ∃ c, aesEncryptCbc (List.replicate 32 3) (List.replicate 16 9) [1, 2] = .ok c ∧
+    decryptAes 6 (List.replicate 32 3) 12 0 (List.replicate 16 9 ++ c) = some [1, 2] :=
+  C23_model_decrypt_aes_inverts 6 _ 12 0 _ _ _ (by simp [aesObjKey]) (by simp)
 
 /-! ## Algorithms 2–7 (revisions 2–4) -/
 
